@@ -240,6 +240,11 @@ def noncanon(q):
     return _noncanon(q, len(q), False)
 
 
+def noncanon2(q):
+    """as noncanon, with the backslash also counted as a separator (a chain turns it into '/' before asking its members)"""
+    return _noncanon(q, len(q), True)
+
+
 def _lookup(s, prefix, q, n):
     """entry (name, data) of set s that prefix + '/' + q denotes (folded, last duplicate wins), or None"""
     hit = None
